@@ -605,26 +605,39 @@ func statusName(c *Ctx, e ast.Expr) string {
 // protocol-version key of _meta; and, as structural facts, which decoder every one of these functions calls (the SDK's
 // case-sensitive internal/json, not encoding/json, whose member matching is case-insensitive).
 func preflightParamsDecoding(c *Ctx, w func(format string, a ...any)) {
+	// group -> the distinct decoder entry points its functions call (sorted). The `arguments` group is the two functions
+	// that read params.arguments plus the helper they may share (decodeArguments, fix preflight-F31).
 	decoders := map[string][]string{}
-	unmarshalCalls := func(fn string) {
-		fd := c.Func("mcp", "", fn)
-		if fd == nil {
-			c.Errf("preflight: %s not found", fn)
-			return
+	groups := []struct {
+		name string
+		fns  []string
+	}{{"extractName", []string{"extractName"}}, {"extractRequestMeta", []string{"extractRequestMeta"}},
+		{"arguments", []string{"validateParamHeaders", "generateParamHeaders", "decodeArguments"}}, {"lookupArgument", []string{"lookupArgument"}}}
+	for _, grp := range groups {
+		set := map[string]bool{}
+		for i, fn := range grp.fns {
+			fd := c.Func("mcp", "", fn)
+			if fd == nil {
+				if i == 0 {
+					c.Errf("preflight: %s not found", fn)
+				}
+				continue
+			}
+			ast.Inspect(fd.Body, func(n ast.Node) bool {
+				if ce, ok := n.(*ast.CallExpr); ok {
+					if se, ok := ce.Fun.(*ast.SelectorExpr); ok && (se.Sel.Name == "Unmarshal" || se.Sel.Name == "NewDecoder") {
+						set[c.Src(ce.Fun)] = true
+					}
+				}
+				return true
+			})
 		}
 		calls := []string{}
-		ast.Inspect(fd.Body, func(n ast.Node) bool {
-			if ce, ok := n.(*ast.CallExpr); ok {
-				if se, ok := ce.Fun.(*ast.SelectorExpr); ok && (se.Sel.Name == "Unmarshal" || se.Sel.Name == "NewDecoder") {
-					calls = append(calls, c.Src(ce.Fun))
-				}
-			}
-			return true
-		})
-		decoders[fn] = calls
-	}
-	for _, fn := range []string{"extractName", "extractRequestMeta", "validateParamHeaders", "generateParamHeaders", "lookupArgument"} {
-		unmarshalCalls(fn)
+		for k := range set {
+			calls = append(calls, k)
+		}
+		sort.Strings(calls)
+		decoders[grp.name] = calls
 	}
 	c.Fact("preflight.params_decoders", decoders)
 
@@ -739,30 +752,30 @@ func preflightParamsDecoding(c *Ctx, w func(format string, a ...any)) {
 	w("]\n")
 	c.Fact("preflight.extractName_members", fieldFacts)
 
-	// `arguments`: the local struct of validateParamHeaders (and, identically, of generateParamHeaders)
-	argKey, argTypes := "", []string{}
-	for _, fn := range []string{"validateParamHeaders", "generateParamHeaders"} {
+	// `arguments`: the local struct `raw` of validateParamHeaders / generateParamHeaders, or of the helper they share
+	argKey := ""
+	for _, fn := range []string{"validateParamHeaders", "generateParamHeaders", "decodeArguments"} {
 		fd := c.Func("mcp", "", fn)
 		if fd == nil {
 			continue
 		}
 		st, _ := varStruct("raw", fd.Body)
 		if st == nil {
-			c.Errf("preflight: %s: `var raw struct{...}` not found", fn)
 			continue
 		}
-		k, ty, ok := jsonNameOf(st, "Arguments")
+		k, _, ok := jsonNameOf(st, "Arguments")
 		if !ok {
 			c.Errf("preflight: %s: raw has no field Arguments", fn)
 			continue
 		}
 		if argKey != "" && k != argKey {
-			c.Errf("preflight: %s reads member %q, validateParamHeaders reads %q", fn, k, argKey)
+			c.Errf("preflight: %s reads member %q, others read %q", fn, k, argKey)
 		}
 		argKey = k
-		argTypes = append(argTypes, fn+": "+ty)
 	}
-	c.Fact("preflight.arguments_field_types", argTypes)
+	if argKey == "" {
+		c.Errf("preflight: no `var raw struct{ Arguments ... }` in validateParamHeaders / generateParamHeaders / decodeArguments")
+	}
 	w("/-- json name of the member `validateParamHeaders` / `generateParamHeaders` decode the arguments from -/\ndef memberArguments : List Nat := %s /- %q -/\n", leanBytes(argKey), argKey)
 
 	// `_meta`: the local struct of extractRequestMeta
